@@ -1,7 +1,47 @@
-(* C01 — verdicts match Draft 6 (placeholder set, extended below as proofs land). *)
-From Statham.Model Require Import Str Json Elem PyNum Validate Tables.
-From Statham.Proofs Require Import Agree_tables.
+(* C01 — verdicts match Draft 6.
+   Central theorem (class-free fragment): for every schema S of the plain fragment (C01Plain.plain:
+   unique keys, schema-valued properties / patternProperties, distinct attribute names, non-empty
+   anyOf / oneOf, literals free of "_x_autotitle", no node of type "object"), every parser
+   configuration that parses all three list-valued composition keywords, every regex / format
+   oracle, every parse state and every well-formed value: the element returned by
+   parse_element accepts the value exactly when Spec6.v6 (the keyword-by-keyword Draft-6 reading of
+   the RAW schema) holds, and raises the validation error exactly when it does not — unless the
+   call crashes (C10's subject).  All keywords of the property are covered: type (incl. lists),
+   enum, const, the numeric / length / count thresholds, multipleOf, pattern, format, items
+   (single and tuple), additionalItems, contains, uniqueItems, properties, patternProperties,
+   additionalProperties, required, propertyNames, dependencies (both forms), anyOf / oneOf /
+   allOf / not and their restructuring by _parse_composition.
+   Not covered by the theorem (covered by the correspondence and oracle runs): schemas with
+   type "object" (named classes, deduplication through the parse state, the `required` waiver). *)
+From Statham.Model Require Import Str Json Elem PyNum Validate Tables Parser Spec6 Plain.
+From Statham.Proofs Require Import Agree_tables JsonEqProof C01Vm C01Plain C01Parse.
 
 Theorem C01_thresholds_from_code : thr_eqb Statham.Generated.Gen_validators.thresholds thresholds = true.
 Proof. exact thresholds_agree. Qed.
 Print Assumptions C01_thresholds_from_code.
+
+Theorem C01_validity_plain : forall cfg O w S0 st e st',
+  w <> WAlways -> comp_complete cfg -> plain cfg S0 ->
+  parse_element cfg S0 st = POk (e, st') ->
+  forall v, jwf v -> om (build O e (Some v)) (v6 O w S0 v).
+Proof. exact validity_plain. Qed.
+Print Assumptions C01_validity_plain.
+
+Theorem C01_accepts_iff_valid : forall cfg O S0 st e st',
+  comp_complete cfg -> plain cfg S0 -> parse_element cfg S0 st = POk (e, st') ->
+  forall v, jwf v -> ncrash (build O e (Some v)) ->
+  accepts O e v = valid6 O S0 v /\ accepts O e v = valid6_strict O S0 v /\
+  (build O e (Some v) = Rej <-> valid6 O S0 v = false).
+Proof. exact accepts_iff_valid. Qed.
+Print Assumptions C01_accepts_iff_valid.
+
+(* the configuration regenerated from the source parses all three keywords *)
+Theorem C01_real_config : forall u r un,
+  comp_complete (mkCfg u r un Statham.Generated.Gen_parser_tables.comp_order_now).
+Proof. exact real_comp_complete. Qed.
+Print Assumptions C01_real_config.
+
+(* the fragment is decidable by an executable checker (run by the harness on the schemas it tests) *)
+Theorem C01_plain_checker : forall cfg fuel S0, plainb cfg fuel S0 = true -> plain cfg S0.
+Proof. exact plainb_sound. Qed.
+Print Assumptions C01_plain_checker.
